@@ -15,6 +15,7 @@ import (
 	"net/http/httptest"
 	"net/url"
 	"strings"
+	"time"
 
 	"github.com/beevik/etree"
 	dsig "github.com/russellhaering/goxmldsig"
@@ -263,3 +264,6 @@ func (q ReqSpec) HTTP() *http.Request {
 	}
 	return r
 }
+
+// NowInstant is the current time as an xs:dateTime in UTC
+func NowInstant() string { return time.Now().UTC().Format("2006-01-02T15:04:05Z") }
